@@ -1265,7 +1265,8 @@ pub fn require_string_sites(f: &File) -> (Vec<Site>, Vec<Site>) {
                 let anchors = vec![parts[0].loc.start(), loc.start()];
                 all.push(Site { anchors: anchors.clone(), canonical: true, form: "require-with-string", class: it.class });
                 let first = &parts[0].string;
-                let tricky = parts.len() > 1 || first.contains('\\') || !first.is_ascii();
+                // bytes of the (first) literal as written in the source; non-ASCII text counts in bytes
+                let tricky = parts.len() > 1 || first.contains('\\');
                 let total: usize = parts.iter().map(|p| p.string.len()).sum();
                 if tricky {
                     if first.len() >= 32 || total >= 32 {
